@@ -1,6 +1,7 @@
 package main
 
 import (
+	"strings"
 	"fmt"
 	"go/token"
 	"go/types"
@@ -238,4 +239,224 @@ func ruleMDROP(p *Program, r *Reporter) {
 	if n < 2 {
 		r.Anchor(id, fmt.Sprintf("addUpdate: %d store/delete of an accumulated entry, expected >= 2", n))
 	}
+}
+
+// ---------------------------------------------------------------------------
+// ERR-DEAD — the error returned by a call into the repository's own code is
+// looked at: an error result that nothing reads (it was assigned to a variable
+// that is overwritten before any test, or not assigned at all) hides the
+// failure of that step. Calls whose result is discarded on purpose are few and
+// listed with a reason.
+
+var errDeadAllowed = map[string]string{
+	"(*server.monitor).filter|ForEachRowUpdate":  "the callback passed to ForEachRowUpdate only fills a map and always returns nil",
+	"(*server.monitor).filter2|ForEachRowUpdate": "the callback passed to ForEachRowUpdate only fills a map and always returns nil",
+}
+
+func errDeadSites(p *Program, pkgs map[string]bool, report func(fn *ssa.Function, c *ssa.Call, name string, dead bool)) {
+	errT := types.Universe.Lookup("error").Type()
+	for _, fn := range p.srcFuncs {
+		if !pkgs[pkgOf(fn)] {
+			continue
+		}
+		for _, b := range fn.Blocks {
+			for _, ins := range b.Instrs {
+				c, ok := ins.(*ssa.Call)
+				if !ok {
+					continue
+				}
+				// callee in the repository (static or interface method declared in it)
+				name, inRepo := "", false
+				if sc := c.Call.StaticCallee(); sc != nil {
+					name = sc.Name()
+					inRepo = sc.Pkg != nil && strings.HasPrefix(sc.Pkg.Pkg.Path(), repoMod)
+				} else if c.Call.IsInvoke() {
+					name = c.Call.Method.Name()
+					inRepo = c.Call.Method.Pkg() != nil && strings.HasPrefix(c.Call.Method.Pkg().Path(), repoMod)
+				}
+				if !inRepo {
+					continue
+				}
+				var ev ssa.Value
+				hasErr := false
+				if types.Identical(c.Type(), errT) {
+					ev, hasErr = c, true
+				} else if tup, ok := c.Type().(*types.Tuple); ok && tup.Len() > 0 && types.Identical(tup.At(tup.Len()-1).Type(), errT) {
+					hasErr = true
+					if refs := c.Referrers(); refs != nil {
+						for _, r := range *refs {
+							if ex, ok := r.(*ssa.Extract); ok && ex.Index == tup.Len()-1 {
+								ev = ex
+							}
+						}
+					}
+				}
+				if !hasErr {
+					continue
+				}
+				dead := true
+				if ev != nil {
+					if refs := ev.Referrers(); refs != nil {
+						for _, r := range *refs {
+							if _, isDbg := r.(*ssa.DebugRef); !isDbg {
+								dead = false
+							}
+						}
+					}
+				}
+				report(fn, c, name, dead)
+			}
+		}
+	}
+}
+
+func ruleERRDEAD(pkgs ...string) func(p *Program, r *Reporter) {
+	want := map[string]bool{}
+	for _, k := range pkgs {
+		want[k] = true
+	}
+	return func(p *Program, r *Reporter) {
+		const id = "ERR-DEAD"
+		errDeadSites(p, want, func(fn *ssa.Function, c *ssa.Call, name string, dead bool) {
+			if why, ok := errDeadAllowed[funcName(fn)+"|"+name]; ok && dead {
+				r.Ob(id, funcName(fn), "error of "+name, c.Pos(), true, false, "discarded on purpose: "+why)
+				return
+			}
+			r.Ob(id, funcName(fn), "error of "+name, c.Pos(), !dead, true,
+				ifs(!dead, "the error result is read", "the error returned by "+name+" is never read (overwritten before any test, or dropped): a failure of this step goes unnoticed and the operation is reported successful"))
+		})
+	}
+}
+
+// ---------------------------------------------------------------------------
+// T-WARM — a row read from the database inside a transaction is never handed to
+// an operation as it is: in the loop that reconciles Database.List's result
+// with the transaction cache, every iteration either replaces the row by the
+// transaction's own version, or creates it in the transaction cache (so that
+// later operations see this one's effect on it), or drops it from the result,
+// or leaves the function. A path round the loop that does none of these keeps
+// the committed, possibly stale version of a row the transaction has already
+// changed.
+
+func ruleTWARM(p *Program, r *Reporter) {
+	const id = "T-WARM"
+	fn := p.Fn("database/transaction", "Transaction", "rowsFromTransactionCacheAndDatabase")
+	if fn == nil {
+		r.Anchor(id, "transaction.(*Transaction).rowsFromTransactionCacheAndDatabase")
+		return
+	}
+	n := 0
+	for g := range p.PrivateRegion(fn) {
+		if g.Parent() != nil {
+			continue
+		}
+		// the map returned by Database.List
+		var listed []ssa.Value
+		for _, b := range g.Blocks {
+			for _, ins := range b.Instrs {
+				if c, ok := ins.(*ssa.Call); ok && c.Call.IsInvoke() && c.Call.Method.Name() == "List" {
+					if refs := c.Referrers(); refs != nil {
+						for _, rf := range *refs {
+							if ex, ok := rf.(*ssa.Extract); ok && ex.Index == 0 {
+								listed = append(listed, ex)
+							}
+						}
+					}
+				}
+			}
+		}
+		for _, lv := range listed {
+			refs := lv.Referrers()
+			if refs == nil {
+				continue
+			}
+			for _, rf := range *refs {
+				rg, ok := rf.(*ssa.Range)
+				if !ok {
+					continue
+				}
+				// loop header: the block holding the Next of this range
+				var h *ssa.BasicBlock
+				var key ssa.Value
+				if rr := rg.Referrers(); rr != nil {
+					for _, x := range *rr {
+						if nx, ok := x.(*ssa.Next); ok {
+							h = nx.Block()
+							if nr := nx.Referrers(); nr != nil {
+								for _, y := range *nr {
+									if ex, ok := y.(*ssa.Extract); ok && ex.Index == 1 {
+										key = ex
+									}
+								}
+							}
+						}
+					}
+				}
+				if h == nil || key == nil {
+					continue
+				}
+				// blocks that reconcile the current row
+				done := map[*ssa.BasicBlock]bool{}
+				for _, b := range g.Blocks {
+					if !inLoopOf(h, b) {
+						continue
+					}
+					for _, ins := range b.Instrs {
+						switch x := ins.(type) {
+						case *ssa.MapUpdate:
+							if x.Map == lv && x.Key == key {
+								done[b] = true
+							}
+						case *ssa.Call:
+							if bi, ok := x.Call.Value.(*ssa.Builtin); ok && bi.Name() == "delete" && len(x.Call.Args) == 2 && x.Call.Args[0] == lv && x.Call.Args[1] == key {
+								done[b] = true
+							}
+							if sc := x.Call.StaticCallee(); sc != nil && sc.Name() == "Create" {
+								for _, a := range x.Call.Args {
+									if a == key {
+										done[b] = true
+									}
+								}
+							}
+						}
+					}
+				}
+				n++
+				skipped := false
+				for _, s := range h.Succs {
+					if !inLoopOf(h, s) || s == h {
+						continue
+					}
+					if pathAvoidingFrom(s, h, done) {
+						skipped = true
+					}
+				}
+				r.Ob(id, funcName(g), "database row reconciled with the transaction cache", rg.Pos(), !skipped, true,
+					ifs(!skipped, "every database row is replaced by the transaction's version, created in the transaction cache, dropped, or ends the function", "some database rows go round the loop untouched: a row the transaction already changed (so that it no longer matches, or is already in its cache) is handed to the operation in its committed, stale version"))
+			}
+		}
+	}
+	if n < 1 {
+		r.Anchor(id, "rowsFromTransactionCacheAndDatabase: loop over the rows listed from the database")
+	}
+}
+
+// pathAvoidingFrom: is there a path from block `from` (inclusive) to `to` that
+// enters no block of `avoid`?
+func pathAvoidingFrom(from, to *ssa.BasicBlock, avoid map[*ssa.BasicBlock]bool) bool {
+	seen := map[*ssa.BasicBlock]bool{}
+	work := []*ssa.BasicBlock{from}
+	for len(work) > 0 {
+		b := work[len(work)-1]
+		work = work[:len(work)-1]
+		if seen[b] || avoid[b] {
+			continue
+		}
+		seen[b] = true
+		if b == to {
+			return true
+		}
+		work = append(work, b.Succs...)
+	}
+	return false
 }
